@@ -2509,7 +2509,7 @@ def o_very_long_lines(ctx):
         if "ok" not in t or len(t["ok"].splitlines()) != src.count("\n") + 1:
             return {"what": "the token listing of a document with long lines does not have one row per line and one for the end of file"}
         return None
-    return oracle("very-long-lines", [65535, 65536, 65537, 70000, 140000, (1 << 20) + 5, (1 << 22) + 5, (1 << 23) + 1], check, describe=lambda n: "lines of %d characters" % n)
+    return oracle("very-long-lines", [65535, 65536, 65537, 70000, 140000, (1 << 20) + 5, (1 << 22) + 5, (1 << 23) + 1] + ([(1 << 25) + 17] if ctx.get("pid") in (None, "C04") or S.n_for(0, 1) else []), check, describe=lambda n: "lines of %d characters" % n)
 
 
 for _pid in ("C03", "C04", "C18"):
@@ -3552,6 +3552,13 @@ def stream():
         envs.extend(ge.enum(ev))
     return json.loads(json.dumps(envs).replace(json.dumps(tmp)[1:-1], "TMP"))
 out["stream"] = guarded(stream)
+def stream_mem():
+    ge = GherkinEvents(GherkinEvents.Options(print_source=True, print_ast=True, print_pickles=True))
+    envs = []
+    for pth, s in zip(paths, inp["docs"]):
+        envs.extend(ge.enum({"source": {"uri": pth, "data": s, "mediaType": "text/x.cucumber.gherkin+plain"}}))
+    return json.loads(json.dumps(envs).replace(json.dumps(tmp)[1:-1], "TMP"))
+out["stream_mem"] = guarded(stream_mem)
 def cli(script, args):
     import io, contextlib, runpy
     buf = io.StringIO()
@@ -3616,6 +3623,8 @@ def o_environment_matrix(ctx):
                 return {"what": "the loaded dialect table differs from the master table"}
             if canon(b["strings"]) != canon(b["paths"]):
                 return {"what": "a document read by path parses differently from the same text passed as a string"}
+            if canon(b["stream"]) != canon(b["stream_mem"]):
+                return {"what": "the envelopes of files read through SourceEvents differ from those of source events carrying the same text"}
             api = [e for e in b["stream"] if "source" not in e] if isinstance(b["stream"], list) else b["stream"]
             if canon(b["cli_events"]) != canon(api):
                 return {"what": "scripts/generate_events.py --no-source prints other envelopes than the stream API yields for the same files", "cli": canon(b["cli_events"])[:300]}
@@ -3957,3 +3966,449 @@ def o_reentrancy_and_copies(ctx):
 
 for _pid in ("C15", "C03", "C06", "C01"):
     P.PROPS[_pid]["streams"].append(o_reentrancy_and_copies)
+
+
+# ---------------------------------------------------------------- round 16: the public surface used the way user code uses it
+def o_public_api_usage(ctx):
+    """the objects behave as their public surface says, also for user code that subclasses them, copies them, assigns their
+    public attributes after construction or hands them things of its own: shallow copies, builders / generators / matchers
+    that are falsy or installed later, builders that veto a token, scanners of the user's own, ASTs edited in place or
+    spliced together from several parses, callbacks that compile or parse again"""
+    import copy as _copy
+    import io as _io
+    impl = impl_mod()
+    from gherkin.errors import AstBuilderException
+    EN = "@t\nFeature: f\n  # c\n  Background:\n    Given b\n      | x | y |\n  @s\n  Scenario Outline: o <a>\n    When <a>\n      \"\"\"\n      d <a>\n      \"\"\"\n    But c\n    @e\n    Examples:\n      | a |\n      | 1 |\n      | 2 |\n\n  Rule: r\n    Example: e\n      Then t\n"
+    FR = "# language: fr\nFonctionnalité: f\n  Scénario: s\n    Soit x\n    Et y\n    Mais z\n"
+    BAD = "Feature: bad\n  Scenario: s\n    Given g\n    oops\n  @a b\n  Scenario: t\n    Given h\n    nope\n"
+
+    def run(p, src, m=None):
+        try:
+            return canon(p.parse(src, m) if m is not None else p.parse(src))
+        except impl.CompositeParserException as e:
+            return canon(["composite"] + [impl.err_json(x) for x in e.errors])
+        except impl.ParserException as e:
+            return canon(["single", impl.err_json(e)])
+
+    def fresh(src, stop=False, dialect="en"):
+        p = impl.Parser(impl.AstBuilder(impl.CountingIdGen()))
+        p.stop_at_first_error = stop
+        return run(p, src, impl.TokenMatcher(dialect))
+
+    class LenGen(impl.IdGenerator):
+        def __init__(self):
+            super().__init__()
+            self.issued = []
+
+        def get_next_id(self):
+            x = super().get_next_id()
+            self.issued.append(x)
+            return x
+
+        def __len__(self):
+            return len(self.issued)
+
+    def ids_of(v):
+        out = []
+        P.walk(v, lambda p_, k, x: out.append(x) if k == "id" else None)
+        return out
+    items = ["shallow-parser", "shallow-matcher", "late-builder", "late-generators", "falsy-generator", "veto", "own-scanners", "edit-recompile", "spliced", "reentrant-compile",
+             "offset-builder", "cells-builder", "mutating-builder", "tilde-matcher", "scribbling-hook"]
+
+    def check(kind):
+        if kind == "shallow-parser":
+            for first in (EN, BAD):
+                p = impl.Parser(impl.AstBuilder(impl.CountingIdGen()))
+                run(p, first, impl.TokenMatcher("en"))
+                for stop in (False, True):
+                    q = _copy.copy(p)
+                    q.ast_builder = impl.AstBuilder(impl.CountingIdGen())
+                    q.stop_at_first_error = stop
+                    for src in (EN, BAD):
+                        if run(q, src, impl.TokenMatcher("en")) != fresh(src, stop):
+                            return {"what": "a shallow copy of a used parser, given its own builder and error mode, does not parse like a fresh parser", "stop": stop, "source": src[:30]}
+                    p.ast_builder.id_generator.n = 0
+                    if run(p, EN, impl.TokenMatcher("en")) != fresh(EN, p.stop_at_first_error):
+                        return {"what": "using a shallow copy of a parser changes what the original returns"}
+            return None
+        if kind == "shallow-matcher":
+            proto = impl.TokenMatcher("en")
+            m1, m2 = _copy.copy(proto), _copy.copy(proto)
+            run(impl.Parser(impl.AstBuilder(impl.CountingIdGen())), FR, m1)
+            got = run(impl.Parser(impl.AstBuilder(impl.CountingIdGen())), EN, m2)
+            if got != fresh(EN):
+                return {"what": "a shallow copy of a matcher is affected by what another copy of the same matcher parsed"}
+            return None
+        if kind == "late-builder":
+            p = impl.Parser()
+            g = impl.CountingIdGen()
+            p.ast_builder = impl.AstBuilder(g)
+            if run(p, EN, impl.TokenMatcher("en")) != fresh(EN):
+                return {"what": "a builder assigned to Parser.ast_builder after construction is not the one the parser drives"}
+            from gherkin.stream.gherkin_events import GherkinEvents
+            ge = GherkinEvents(GherkinEvents.Options(print_source=False, print_ast=True, print_pickles=True))
+
+            class Marking(impl.AstBuilder):
+                seen = 0
+
+                def build(self, token):
+                    Marking.seen += 1
+                    return super().build(token)
+            ge.parser.ast_builder = Marking(ge.id_generator)
+            envs = list(ge.enum({"source": {"uri": "u", "data": EN, "mediaType": "text/x.cucumber.gherkin+plain"}}))
+            if Marking.seen != EN.count("\n") + 1 or not any("gherkinDocument" in e for e in envs) or len(set(ids_of(envs))) != len(ids_of(envs)):
+                return {"what": "a builder installed on the stream's parser does not receive the tokens, or the stream's envelopes are not those of the document"}
+            return None
+        if kind == "late-generators":
+            g = impl.CountingIdGen()
+            p, c = impl.Parser(), impl.Compiler()
+            p.ast_builder.id_generator = g
+            c.id_generator = g
+            d = p.parse(EN)
+            d["uri"] = "u"
+            ids = ids_of([d, c.compile(d)])
+            if sorted(ids, key=int) != [str(i) for i in range(len(ids))] or g.n != len(ids):
+                return {"what": "generators assigned to AstBuilder.id_generator / Compiler.id_generator after construction are not the ones that number the results", "ids": sorted(ids, key=int)[:12]}
+            return None
+        if kind == "falsy-generator":
+            g = LenGen()
+            p, c = impl.Parser(impl.AstBuilder(g)), impl.Compiler(g)
+            d = p.parse(EN)
+            d["uri"] = "u"
+            ids = ids_of([d, c.compile(d)])
+            if len(set(ids)) != len(ids) or sorted(ids, key=int) != sorted(g.issued, key=int):
+                return {"what": "an id generator that is falsy while it has issued nothing is replaced by another one"}
+            return None
+        if kind == "veto":
+            class Veto(impl.AstBuilder):
+                def __init__(self, g):
+                    super().__init__(g)
+                    self.lines = []
+
+                def build(self, token):
+                    self.lines.append(token.location["line"])
+                    if token.matched_type == "TagLine" and any(i["text"] == "@s" for i in token.matched_items):
+                        raise AstBuilderException("vetoed", dict(token.location))
+                    return super().build(token)
+            b = Veto(impl.CountingIdGen())
+            p = impl.Parser(b)
+            try:
+                p.parse(EN, impl.TokenMatcher("en"))
+                return {"what": "an error raised by the builder's build() is lost"}
+            except impl.CompositeParserException as e:
+                if [str(x) for x in e.errors] != ["(7:3): vetoed"] and not any("vetoed" in str(x) for x in e.errors):
+                    return {"what": "the error raised by the builder's build() is not among the collected errors", "errors": [str(x) for x in e.errors]}
+            except Exception as e:  # noqa
+                return {"what": "in collecting mode an error raised by the builder's build() escapes as %s instead of being collected" % type(e).__name__}
+            if b.lines != list(range(1, EN.count("\n") + 2)):
+                return {"what": "after an error raised by the builder's build() the remaining lines are not delivered", "lines": b.lines}
+            return None
+        if kind == "own-scanners":
+            class Own(impl.TokenScanner):
+                def __init__(self, text):
+                    self.io = _io.StringIO(text)
+                    self.line_number = 0
+
+            class Reading(impl.TokenScanner):
+                def read(self):
+                    self.line_number += 1
+                    line = self.io.readline()
+                    return impl.Token((impl.GherkinLine(line, self.line_number) if line else line), {"line": self.line_number})
+
+            class NoTerminators(impl.TokenScanner):
+                def __init__(self, text):
+                    self.lines = text.split("\n")
+                    if self.lines and self.lines[-1] == "":
+                        self.lines.pop()
+                    self.line_number = 0
+
+                def read(self):
+                    self.line_number += 1
+                    if self.line_number > len(self.lines):
+                        return impl.Token("", {"line": self.line_number})
+                    return impl.Token(impl.GherkinLine(self.lines[self.line_number - 1], self.line_number), {"line": self.line_number})
+            for src in (EN, BAD, FR, "Feature: f\n\n  text\n\n  more\n\n  Scenario: s\n\n    Given g\n"):
+                want = fresh(src)
+                for name, mk in (("its own constructor", lambda: Own(src)), ("its own read()", lambda: Reading(src)), ("lines without terminators", lambda: NoTerminators(src))):
+                    got = run(impl.Parser(impl.AstBuilder(impl.CountingIdGen())), mk(), impl.TokenMatcher("en"))
+                    if got != want:
+                        return {"what": "a TokenScanner subclass with %s gives another result than the text itself" % name, "source": src[:30], "want": want[:200], "got": got[:200]}
+                sc = impl.TokenScanner(src) if not os.path.exists(src) else Own(src)
+                p = impl.Parser(impl.AstBuilder(impl.CountingIdGen()))
+                run(p, sc, impl.TokenMatcher("en"))
+                sc.io.seek(0)
+                sc.line_number = 0
+                p.ast_builder.id_generator.n = 0
+                if run(p, sc, impl.TokenMatcher("en")) != want:
+                    return {"what": "a scanner rewound (io.seek(0), line_number = 0) gives another result the second time"}
+            return None
+        if kind == "edit-recompile":
+            for rows in (1, 2):
+                src = "Feature: f\n  Scenario Outline: o <a> <b>\n    Given <a> and <b>\n    Examples:\n      | a | b |\n" + "".join("      | %d | x |\n" % i for i in range(rows))
+                d = impl.Parser(impl.AstBuilder(impl.CountingIdGen())).parse(src)
+                d["uri"] = "u"
+                g = impl.CountingIdGen(100)
+                c = impl.Compiler(g)
+                c.compile(d)
+                ex = d["feature"]["children"][0]["scenario"]["examples"][0]
+                ex["tableHeader"]["cells"][0]["value"] = "b"
+                ex["tableHeader"]["cells"][1]["value"] = "a"
+                ex["tableBody"][-1]["cells"][1]["value"] = "changed"
+                g.n = 100
+                got = canon(c.compile(d))
+                g2 = impl.CountingIdGen(100)
+                want = canon(impl.Compiler(g2).compile(_copy.deepcopy(d)))
+                if got != want:
+                    return {"what": "an AST edited in place and compiled again by the same compiler gives other pickles than a fresh compiler", "want": want[:300], "got": got[:300]}
+            return None
+        if kind == "spliced":
+            for fb_arg in ("      | t |\n", ""):
+              a = impl.Parser().parse("@f1 @f2\nFeature: a\n  Background:\n    Given fb\n" + fb_arg + "  @s1\n  Scenario: one\n    Given x\n")
+              b = impl.Parser().parse("@g1\nFeature: b\n  Rule: r\n    Background:\n      Given rb\n        \"\"\"\n        d\n        \"\"\"\n    @s2 @s3\n    Scenario Outline: two\n      Given <v>\n      @e\n      Examples:\n        | v |\n        | 1 |\n        | 2 |\n")
+              a["feature"]["children"] += b["feature"]["children"]
+              a["feature"]["tags"] += b["feature"]["tags"]
+              m = run_model([("compile", ["u", a, 50])])[0]
+              im = impl.compile_doc("u", a, 50)
+              if canon(m) != canon(im):
+                  return {"what": "an AST spliced together from two separately parsed documents (ids repeat) compiles differently from the model", "model": canon(m)[:300], "impl": canon(im)[:300]}
+            return None
+        if kind == "offset-builder":
+            class Offset(impl.AstBuilder):
+                def get_location(self, token, column=None):
+                    loc = super().get_location(token, column)
+                    return dict(loc, line=loc["line"] + 100)
+            d = json.loads(run(impl.Parser(Offset(impl.CountingIdGen())), EN, impl.TokenMatcher("en")))
+            w = json.loads(fresh(EN))
+
+            def shift(v, top=True):
+                if isinstance(v, dict):
+                    return {k: (dict(x, line=x["line"] + 100) if k == "location" and isinstance(x, dict) and "line" in x else shift(x, False)) for k, x in v.items()}
+                if isinstance(v, list):
+                    return [shift(x, False) for x in v]
+                return v
+            w2 = shift(w)
+            if canon(d) != canon(w2):
+                return {"what": "a builder whose get_location() adds 100 to every line does not yield the same AST with every line 100 higher"}
+            rag = "Feature: f\n  Scenario: s\n    Given g\n      | a | b |\n      | c |\n"
+            r = json.loads(run(impl.Parser(Offset(impl.CountingIdGen())), rag, impl.TokenMatcher("en")))
+            if r[0] != "composite" or r[1]["location"].get("line") != 105:
+                return {"what": "with such a builder the ragged-table error is not at the location of the first deviating row as the builder reports it", "got": r}
+            return None
+        if kind == "cells-builder":
+            class TwoCells(impl.AstBuilder):
+                def get_cells(self, token):
+                    return super().get_cells(token)[:2]
+            for rows, ok in ((["| a | b | c |", "| d | e | f |"], True), (["| a | b |", "| c | d | e |"], True), (["| a | b | c |", "| d |"], False)):
+                src = "Feature: f\n  Scenario: s\n    Given g\n" + "".join("      %s\n" % x for x in rows)
+                r = json.loads(run(impl.Parser(TwoCells(impl.CountingIdGen())), src, impl.TokenMatcher("en")))
+                accepted = isinstance(r, dict)
+                if accepted != ok:
+                    return {"what": "rectangularity is not judged on the rows as the builder's get_cells() builds them", "rows": rows, "accepted": accepted}
+                if accepted and [len(x["cells"]) for x in r["feature"]["children"][0]["scenario"]["steps"][0]["dataTable"]["rows"]] != [2, 2]:
+                    return {"what": "the cells the builder's get_cells() returns are not the cells of the AST"}
+            return None
+        if kind == "scribbling-hook":
+            class Scribble(impl.AstBuilder):
+                def build(self, token):
+                    for it in (token.matched_items or []):
+                        it["text"] = it["text"].upper()
+                    if token.matched_items and token.matched_type == "TableRow":
+                        del token.matched_items[1:]
+                    return super().build(token)
+            src = "@tag @other\nFeature: f\n  Scenario Outline: s\n    Given g\n      | name | value |\n      | k | v |\n    Examples:\n      | name | value |\n      | x |\n"
+            want = fresh(src)
+            run(impl.Parser(Scribble(impl.CountingIdGen())), src, impl.TokenMatcher("en"))
+            if fresh(src) != want:
+                return {"what": "after a builder of another parse changed the items of its tokens in place, an ordinary parse of the same text reads other cells or tags"}
+            return None
+        if kind == "mutating-builder":
+            class Embed(impl.AstBuilder):
+                def build(self, token):
+                    r = super().build(token)
+                    token.location["line"] = token.location["line"] + 1000
+                    if token.location.get("column"):
+                        token.location["column"] = token.location["column"] + 40
+                    return r
+            src = "Feature: f\n  Scenario: s\n    Given g\n      \"\"\"\n      flush\n        deeper\n     shallower\n      \\\"\\\"\\\"\n      \"\"\"\n    And h\n        ```x\n          in\n        ```\n"
+            got = json.loads(run(impl.Parser(Embed(impl.CountingIdGen())), src, impl.TokenMatcher("en")))
+            want = json.loads(fresh(src))
+            pick = lambda d: [[st["docString"]["content"], st["docString"].get("mediaType"), st["docString"]["delimiter"]] for st in d["feature"]["children"][0]["scenario"]["steps"]]
+            if not isinstance(got, dict) or pick(got) != pick(want):
+                return {"what": "doc strings read differently when the builder changes token.location in place after building each token", "got": pick(got) if isinstance(got, dict) else got}
+            return None
+        if kind == "tilde-matcher":
+            class Tilde(impl.TokenMatcher):
+                def match_DocStringSeparator(self, token):
+                    if not self._active_doc_string_separator:
+                        return self._match_DocStringSeparator(token, "~~~", True) or super().match_DocStringSeparator(token)
+                    if self._active_doc_string_separator == "~~~":
+                        return self._match_DocStringSeparator(token, "~~~", False)
+                    return super().match_DocStringSeparator(token)
+            for ind in ("", "  ", "\t", "         "):
+                src = "Feature: f\n  Scenario: s\n" + ind + "    Given g\n" + ind + "      ~~~md\n" + ind + "      one\n" + ind + "        two\n" + ind + "      ~~~\n" + ind + "    And h\n" + ind + "      \"\"\"\n" + ind + "      three\n" + ind + "      \"\"\"\n"
+                r = json.loads(run(impl.Parser(impl.AstBuilder(impl.CountingIdGen())), src, Tilde("en")))
+                if not isinstance(r, dict):
+                    return {"what": "a matcher subclass that adds a doc-string delimiter through the inherited helper rejects a document", "got": r}
+                got = [st["docString"]["content"] for st in r["feature"]["children"][0]["scenario"]["steps"]]
+                if got != ["one\n  two", "three"]:
+                    return {"what": "with a matcher subclass that adds a doc-string delimiter through the inherited helper, the delimiter's indentation is not removed from the content", "indent": ind, "got": got}
+            return None
+        # reentrant-compile
+        d1 = impl.Parser(impl.AstBuilder(impl.CountingIdGen())).parse(EN.replace("  Rule: r\n", "  @rt1 @rt2\n  Rule: r\n    Background:\n      Given rb\n        | r |\n") + "    Scenario Outline: ro\n      And <z>\n      Examples:\n        | z |\n        | 9 |\n")
+        d1["uri"] = "one.feature"
+        d2 = impl.Parser(impl.AstBuilder(impl.CountingIdGen())).parse(FR.replace("Scénario: s", "@autre\n  Plan du scénario: s <q>") + "    Exemples:\n      | q |\n      | Q |\n")
+        d2["uri"] = "deux.feature"
+
+        def strip_ids(v):
+            if isinstance(v, dict):
+                return {k: strip_ids(x) for k, x in v.items() if k not in ("id", "astNodeIds")}
+            if isinstance(v, list):
+                return [strip_ids(x) for x in v]
+            return v
+        want1 = canon(strip_ids(impl.Compiler(impl.CountingIdGen()).compile(_copy.deepcopy(d1))))
+        for at in range(0, 40):
+            class Nosy(impl.CountingIdGen):
+                busy = False
+
+                def get_next_id(self):
+                    x = super().get_next_id()
+                    if self.n == at + 1 and not Nosy.busy:
+                        Nosy.busy = True
+                        holder["c"].compile(_copy.deepcopy(d2))
+                    return x
+            holder = {}
+            holder["c"] = impl.Compiler(Nosy())
+            got = canon(strip_ids(holder["c"].compile(_copy.deepcopy(d1))))
+            if got != want1:
+                return {"what": "a compile during which the id generator's callback compiles another document with the same compiler gives other pickles (ids apart)", "at": at, "want": want1[:300], "got": got[:300]}
+        return None
+    return oracle("public-api-usage", items, check, describe=lambda k: k)
+
+
+for _pid in sorted(P.PROPS):
+    if _pid != "C19":
+        P.PROPS[_pid]["streams"].append(o_public_api_usage)
+
+
+_FIRST_USE_SCRIPT = r'''
+import sys, json, threading
+docs = json.loads(sys.stdin.read())
+from gherkin.parser import Parser
+bar = threading.Barrier(len(docs))
+out = [None] * len(docs)
+def work(i):
+    bar.wait()
+    try:
+        out[i] = json.dumps(Parser().parse(docs[i]), sort_keys=True)
+    except Exception as e:
+        out[i] = "raised " + type(e).__name__ + ": " + str(e)[:100]
+ths = [threading.Thread(target=work, args=(i,)) for i in range(len(docs))]
+[t.start() for t in ths]
+[t.join(120) for t in ths]
+import gherkin.dialect as GD
+# the table can be extended at run time: a new keyword of an existing dialect, a new dialect
+GD.DIALECTS["en"]["given"].append("Assuming ")
+GD.DIALECTS["en"]["then"].append("Hence ")
+GD.DIALECTS["xx-test"] = dict(GD.DIALECTS["en"], name="Test", native="Test", feature=["Funktion"])
+from gherkin.pickles.compiler import Compiler
+d = Parser().parse("Feature: f\n  Scenario: s\n    Assuming a\n    And b\n    Hence c\n    But d\n")
+d["uri"] = "u"
+types = [s["type"] for s in Compiler().compile(d)[0]["steps"]]
+d2 = Parser().parse("# language: xx-test\nFunktion: f\n  Scenario: s\n    Given g\n")
+sys.stdout.write(json.dumps({"threads": out, "types": types, "newdialect": d2["feature"]["keyword"]}))
+'''
+
+
+def o_first_use(ctx):
+    """a fresh interpreter whose very first parses run on several threads at once parses them like any other; keywords and
+    dialects added to the public table at run time, after the package was used, are recognised with their types"""
+    import subprocess
+    from common import REPO
+    docs = ["Feature: f%d\n  Scenario: s\n    Given g%d\n" % (i, i) for i in range(8)]
+    env = dict(os.environ, PYTHONPATH=os.path.join(REPO, "python"), PYTHONDONTWRITEBYTECODE="1", PYTHONHASHSEED="0")
+    outs = []
+    for _ in range(S.n_for(6, 30)):
+        try:
+            pr = subprocess.run([sys.executable, "-c", _FIRST_USE_SCRIPT], input=json.dumps(docs), capture_output=True, text=True, env=env, timeout=300)
+            outs.append(pr.stdout if pr.returncode == 0 else "exit %d: %s" % (pr.returncode, pr.stderr[-300:]))
+        except subprocess.TimeoutExpired:
+            outs.append(None)
+    impl = impl_mod()
+    want = [json.dumps(impl.Parser().parse(d), sort_keys=True) for d in docs]
+
+    def check(i):
+        o = outs[i]
+        if o is None:
+            return None
+        try:
+            r = json.loads(o)
+        except Exception:
+            return {"what": "the fresh interpreter failed: " + o[:300]}
+        for k, (g, w) in enumerate(zip(r["threads"], want)):
+            if g != w:
+                return {"what": "a parse among the first, concurrent parses of a fresh interpreter went wrong", "got": str(g)[:200]}
+        if r["types"] != ["Context", "Context", "Outcome", "Outcome"]:
+            return {"what": "steps written with keywords added to the dialect table at run time get types %r" % (r["types"],)}
+        if r["newdialect"] != "Funktion":
+            return {"what": "a dialect added to the table at run time is not used"}
+        return None
+    return oracle("first-use", list(range(len(outs))), check, describe=lambda i: "interpreter %d" % i)
+
+
+for _pid in ("C01", "C05", "C10", "C15"):
+    P.PROPS[_pid]["streams"].append(o_first_use)
+
+
+for _pid in ("C02", "C04", "C05", "C12", "C13", "C14", "C16", "C17", "C18"):
+    P.PROPS[_pid]["streams"].append(o_reentrancy_and_copies)
+
+
+def o_c19_language_subclass(ctx):
+    """line level: a subclass of the Markdown matcher that turns the language header back on (by delegating match_Language
+    to the plain matcher's), or a matcher whose public dialect attributes are assigned, recognises the headers and the
+    list-item steps of the dialect then in force -- every dialect, every step keyword"""
+    impl = impl_mod()
+    from gherkin.token_matcher_markdown import GherkinInMarkdownTokenMatcher
+    from gherkin.dialect import Dialect
+
+    class WithLanguage(GherkinInMarkdownTokenMatcher):
+        def match_Language(self, token):
+            return impl.TokenMatcher.match_Language(self, token)
+
+    def tok(text, n=1):
+        return impl.Token(impl.GherkinLine(text, n), {"line": n})
+    D = S.dialects()
+    codes = sorted(D)
+
+    def check(code):
+        d = D[code]
+        listed = [x for role in ("given", "when", "then", "and", "but") for x in d[role]]
+
+        def by_header():
+            tm = WithLanguage("en")
+            return tm if tm.match_Language(tok("# language: " + code)) else None
+
+        def by_attributes():
+            tm = GherkinInMarkdownTokenMatcher("en")
+            tm.dialect_name = code
+            tm.dialect = Dialect.for_name(code)
+            return tm
+        for how, make in (("a language header honoured by a subclass", by_header), ("assigning dialect / dialect_name", by_attributes)):
+            tm = make()
+            if tm is None or tm.dialect_name != code:
+                return {"what": "the Markdown matcher is not in dialect %s after %s" % (code, how)}
+            t = tok("## %s: title" % d["scenario"][0])
+            if not tm.match_ScenarioLine(t) or t.matched_keyword != d["scenario"][0]:
+                return {"what": "after %s a scenario header of the dialect is not recognised" % how}
+            for k in listed:
+                if k == "* ":
+                    continue
+                t = tok("* %sx" % k)
+                want = next(x for x in listed if ("%sx" % k).startswith(x))
+                if not tm.match_StepLine(t) or t.matched_keyword != want:
+                    return {"what": "after %s the list item '* %sx' is not a step with keyword %r" % (how, k, want), "got": getattr(t, "matched_keyword", None)}
+        return None
+    return oracle("md-language-subclass", codes, check, describe=lambda c: c)
+
+
+P.PROPS["C19"]["streams"].append(o_c19_language_subclass)
